@@ -195,7 +195,8 @@ def write_cases(path, codec, profile, scripts, outs, dump_indices=None):
         f.write(";\n".join("(%s, %s)" % (script_coq(s), obs_coq(o)) for s, o in zip(scripts, outs)))
         f.write("].\n")
         f.write("Eval vm_compute in (vmmis 0 cases).\n")
-        f.write("Eval vm_compute in (Refine.lm_scope %s cases).\n" % codec)
+        f.write("Eval vm_compute in (Refine.lm_scope %s conv_i conv_t iupac text amino std_try_to_amino "
+                "std_try_to_codon cases).\n" % codec)
         for i in dump_indices or []:
             f.write("Eval vm_compute in (vmrun %s).\n" % script_coq(scripts[i]))
 
